@@ -16,7 +16,7 @@ RULE = ("case 'exp' = (matrix, ordered pair of writers (w1, w2) out of arxml, cs
         "Matrices include long names (> 32 characters), free signals, cycle times, duplicate frame names, receiver lists not yet "
         "propagated to the frames, multiplex groups with many values, attributes with definitions. quick: every ordered pair on 1 "
         "matrix per shard + random pairs; thorough: every ordered pair on 20 matrices. case 'seeds' = the same exports in "
-        "subprocesses under 6 (thorough: 12) values of PYTHONHASHSEED, always including a frame with 15 multiplex groups. Non-trivial = every distinct case (each exercises >= 1 writer).")
+        "subprocesses under 6 (thorough: 12) values of PYTHONHASHSEED, always including a frame with 15 multiplex groups. One matrix in seven has a frame whose length was never set (0) although it has signals. Non-trivial = every distinct case (each exercises >= 1 writer).")
 EXHAUSTIVE = {"quick": False, "thorough": False}
 PARTIAL = ["the writers' footprint on their argument is recorded in the model by hand (copiesFirst/normalise); that the record is complete "
            "is established only by this correspondence check - the theorems carry least here",
@@ -69,6 +69,9 @@ def gen_desc(rng, many_groups=False, common_prefix=False):
             f["signals"] = sigs
     d["free"] = [{"name": "free%d" % k, "size": rng.randint(1, 8)} for k in range(rng.choice([0, 0, 1, 2]))]
     d["attrs"] = rng.random() < 0.5
+    if fr and rng.random() < 0.15:
+        # a frame whose length was never set (0) although it has signals: the writers must not set it either
+        rng.choice(fr)["size"] = 0
     return d
 
 
